@@ -5,7 +5,10 @@
      P;c c c ...                a Pruefer code (n = length + 2)
      T <rep> <n>;v-u v-u ...    a labelled tree (rep only selects the Go representation)
      M <rep>;n:v-u,v-u n: ...   a sequence of graphs: each is Multicode-encoded and decoded, the
-                                concatenation goes through MulticodeDecodeMultiple *)
+                                concatenation goes through MulticodeDecodeMultiple
+     PP;c,c,c - c,c ...         a sequence of Pruefer codes ("-" = empty): the P observations joined by |
+     TT <rep>;n:v-u,v-u ...     a sequence of labelled trees: the T observations joined by |
+   The model is stateless: a sequence is the list of the single-call results. *)
 open Model
 open Conv_nat
 open Conv_z
@@ -109,6 +112,14 @@ let () =
            | ["P"] -> do_p toks
            | ["T"; _; n] -> do_t (int_of_string n) toks
            | ["M"; _] -> do_m toks
+           | ["PP"] ->
+             String.concat "|" (List.map (fun t ->
+                 do_p (if t = "-" then [] else String.split_on_char ',' t)) toks)
+           | ["GS"; _] -> Printf.sprintf "gs=%d" (List.length (List.map parse_rec toks))
+           | ["TT"; _] ->
+             String.concat "|" (List.map (fun t ->
+                 let (n, es) = parse_rec t in
+                 do_t n (List.map (fun (a, b) -> Printf.sprintf "%d-%d" a b) es)) toks)
            | _ -> "badcase")
       in
       print_endline obs
